@@ -654,3 +654,39 @@ def h_e_named_file(fidx: int, li: int, varnames: bool, header: bool) -> bool:
     post: _
     """
     return untraced(_named_file, pick(fidx, 0, 3), pick(li, 0, 5), pickb(varnames), pickb(header))
+
+
+
+# ------------------------------------------------- encode, extend, encode again
+def _dimacs_extend(a, h1, h2, li):
+    """the DIMACS text is asked for, the formula grows through one of the documented ways (incl. constraints that raise the
+    variable count without adding a clause), the text is asked for again: it states the counts as they are NOW and reads back
+    as the formula as it is NOW"""
+    import io
+    from cnfgen.formula.cnf import CNF
+    from vlib.xh import c12
+    F = c12._mk_cnf([a % len(c12.CLAUSES)], li, 0)
+    F.to_dimacs()
+    F.to_file(io.StringIO(), fileformat='dimacs')
+    for how in (h1, h2):
+        c12._extend(F, how, True)
+        n = F.number_of_variables()
+        cl = [list(c) for c in F.clauses()]
+        out = io.StringIO()
+        F.to_file(out, fileformat='dimacs')
+        for text in (F.to_dimacs(), out.getvalue()):
+            lines = [ln for ln in text.split('\n') if ln and not ln.startswith('c')]
+            if not lines or lines[0] != 'p cnf %d %d' % (n, len(cl)) or [[int(t) for t in ln.split()[:-1]] for ln in lines[1:]] != cl:
+                return False
+            G = CNF.from_file(io.StringIO(text))
+            if G.number_of_variables() != n or [list(c) for c in G.clauses()] != cl:
+                return False
+    return True
+
+
+def h_e_dimacs_extend(a: int, h1: int, h2: int, li: int) -> bool:
+    """
+    pre: 0 <= a <= 11 and 0 <= h1 <= 11 and 0 <= h2 <= 11 and 0 <= li <= 2
+    post: _
+    """
+    return untraced(_dimacs_extend, pick(a, 0, 11), pick(h1, 0, 11), pick(h2, 0, 11), pick(li, 0, 2))
